@@ -37,6 +37,13 @@ def setup():
             for c in cs:
                 s = m2_query.run_model(c)
                 print("tlc  %-22s generated=%d distinct=%d cached=%s %.1fs" % (c["name"], s["generated"], s["distinct"], s["cached"], s["wall_s"]))
+    from . import m3_resolver
+
+    for (prop, tier), cs in sorted(m3_resolver.CONFIGS.items()):
+        if tier == "quick":
+            for c in cs:
+                s = m3_resolver.run_model(c)
+                print("tlc  %-22s generated=%d distinct=%d cached=%s %.1fs" % (c["name"], s["generated"], s["distinct"], s["cached"], s["wall_s"]))
     return rc
 
 
@@ -200,3 +207,37 @@ def c14(res):
 @check("C15")
 def c15(res):
     _m2(res, "C15", SHAPES_RULE + "Queries: Walker.walk for every ordered pair of nodes of every forest (same tree and different trees). Lem_Walk (simple path along links, mirror image, relation to commonancestors) checked by TLC on every shape.")
+
+
+# ---------------------------------------------------------------------------------------------------------------- M3
+def _m3(res, prop, rule):
+    from . import m3_resolver
+    from . import tlc as T
+    import itertools, json as _json
+
+    outs = m3_resolver.run(prop, res.tier)
+    m3_resolver.classify(outs, res, prop)
+    res.rule = rule
+    res.distinct = sum(o["vectors"] for o in outs)
+    res.exhaustive = True
+    for line in itertools.islice(T.read_lines(outs[0]["tlc"]["lines_path"]), 1000, 1002):
+        res.sample(_json.loads(_json.loads(line)))
+    res.assumptions += ["alphabet of names/patterns: a b c d r x z A.. . + [ ] ( ; * ? $ digits; str.upper() is one-to-one on it",
+                        "names containing the class separator cannot be spelled and are skipped for that class variant"]
+    return outs
+
+
+RES_RULE = ("TLC enumerates every tree shape up to MaxN nodes x 8 naming schemes (distinct, case variants, duplicate siblings, regex metacharacters, "
+            "prefix/suffix names, brackets/other separator/star, numeric values, missing attribute) as initial states and, from every start node, every "
+            "path of up to MaxComps components over {names, upper-cased names, unknown, '..', '.', '', wildcard patterns, '**'} relative and absolute, "
+            "with ignorecase on/off (and relax on/off); each transition is a vector replayed on real trees of four class variants (separators '/', ';', '::'; path attributes name, id, label). ")
+
+
+@check("C07")
+def c07(res):
+    _m3(res, "C07", RES_RULE + "Expected = Get of spec Resolver (the statement, literally); TLC checks the round-trip lemmas Lem_Get for all node pairs of every sibling-unique tree.")
+
+
+@check("C08")
+def c08(res):
+    _m3(res, "C08", RES_RULE + "Expected = the as-built recursion AGlob, which TLC proves to satisfy RelaxedOK/StrictOK (Thm_Glob) on every transition; every vector is executed in three cache states (empty, one short of eviction, polluted by the same pattern under the other flag); differing observations are judged by TLC with RelaxedOK/StrictOK and must agree across cache states.")
